@@ -428,5 +428,5 @@ def run(ctx):
         "digest -> e: ECDSA per SEC 1 4.1.3 (leftmost bits), GOST per 34.10-2012 (alpha mod q, 0 -> 1); where the standards are silent (GOST digest longer than q, little-endian buffers longer than the field) both natural readings are admitted (Ecdsa!HashESet)",
         "random octets -> secret: both documented maps are admitted (Ecdsa!SecretSet); a call may only fail where no admitted secret yields a signature",
         "which non-zero code a rejection returns is not compared; with validation off (EC_DISABLE_PUB_KEY_CHK, or the bn_t level API) the verdict for an invalid public key is unspecified",
-        "unknown-point windows wider than the fixed-point window are not built here (finding of C02)",
+        "configurations hit by open findings of C02 are not built here (unknown-point window wider than the fixed-point window, affine BIN_PRECALC_DBL, comb window wider than a digit, affine + INTER)",
     ]
